@@ -188,8 +188,12 @@ def cmd_check(a):
     claimed = [o for o in all_obs if o["id"] not in known_ids]
     n_ob = len(claimed)
     n_ok = sum(1 for o in claimed if o["status"] == "proved")
-    if n_ob == 0:
+    level = P.get("level", "proof")
+    n_cases = int(extra_cov.get("engine_N_cases", 0))
+    if level == "proof" and n_ob == 0:
         errors.append("vacuous: zero obligations generated for %s" % pid)
+    if level == "exploration" and n_cases == 0:
+        errors.append("vacuous: no case was run for %s" % pid)
     for o in all_obs[:: max(1, len(all_obs) // 6)][:6]:
         samples.append({"id": o["id"], "claim": o["desc"], "status": o["status"], "backend": o["backend"]})
     seen_kf = set()
@@ -202,7 +206,7 @@ def cmd_check(a):
     for sym_, oid, path, has_input in violations:
         print("VIOLATION property=%s replay=%s%s" % (pid, path, "" if has_input else " no-failing-input-found"))
     ev = {
-        "property_id": pid, "tier": tier, "seed": seed, "level": "proof",
+        "property_id": pid, "tier": tier, "seed": seed, "level": level,
         "coverage": {
             "obligations": n_ob, "discharged": n_ok,
             "checker_cmd": "cd /verif && ./akv check %s --tier %s" % (pid, tier),
@@ -226,6 +230,15 @@ def cmd_check(a):
         "violations": len(violations),
     }
     ev["coverage"].update(extra_cov)
+    if n_cases:
+        # exploration-style counts of the bounded Engine N part (required keys when the level is exploration)
+        ev["coverage"]["evaluations"] = n_cases
+        ev["coverage"]["distinct_nontrivial"] = int(extra_cov.get("engine_N_distinct", 0))
+        ev["coverage"]["rule"] = ("Engine N: seeded random cases per family (akvlib/nat/engine.py); a case is one call of a real libawkward "
+                                  "method on a generated layout; counted as distinct and non-trivial when its driver line is unique and the "
+                                  "generated top-level value has at least one element")
+        if level == "exploration":
+            ev["coverage"]["samples"] = list(extra_cov.get("engine_N_samples", []))[:6] or samples
     os.makedirs(os.path.join(VERIF, "evidence"), exist_ok=True)
     json.dump(ev, open(os.path.join(VERIF, "evidence", pid + ".json"), "w"), indent=1)
     print("%s tier=%s obligations=%d discharged=%d undecided=%d violations=%d known=%d bounded=%d errors=%d wall=%.1fs"
